@@ -92,6 +92,9 @@ def classify(sys_, call, target, exp, obs, via):
         return "no-sigpipe"
     if op == "getcwd" and via & {"chdir-dots", "symlink"} and e == "cwd" and o == "cwd":
         return "getcwd-not-canonical"
+    # ... the unresolved working directory also breaks file creation below it
+    if op == "open" and "chdir-dots" in via and "C" in call.get("fl", []) and e == "fd" and o == "err:ENOENT":
+        return "getcwd-not-canonical"
     if "symlink" in via:
         return "after-symlink-open"
     if "opendir" in via and (target == "closed" or (exp.get("k") == obs.get("k") and exp.get("k") in ("fd", "pipe"))):
